@@ -14,6 +14,7 @@
 package conn
 
 import (
+	"encoding/binary"
 	"errors"
 	"fmt"
 	"net"
@@ -51,13 +52,34 @@ func (rb RemoteBitfields) unmarshalBinary(rbBytes map[string][]byte) error {
 		if err != nil {
 			return fmt.Errorf("peer id: %s", err)
 		}
-		bitfield := bitset.New(0)
-		if err := bitfield.UnmarshalBinary(bitfieldBytes); err != nil {
+		bitfield, err := unmarshalBitfield(bitfieldBytes)
+		if err != nil {
 			return err
 		}
 		rb[peerID] = bitfield
 	}
 	return nil
+}
+
+// unmarshalBitfield decodes a bitfield serialized by bitset.MarshalBinary. The
+// bit length declared in the header is checked against the number of bytes
+// actually received before anything is allocated for it, since the header is
+// controlled by the remote peer.
+func unmarshalBitfield(b []byte) (*bitset.BitSet, error) {
+	const headerSize = 8
+	if len(b) < headerSize {
+		return nil, errors.New("bitfield too short")
+	}
+	length := binary.BigEndian.Uint64(b[:headerSize])
+	if length > uint64(len(b)-headerSize)*8 {
+		return nil, fmt.Errorf(
+			"bitfield declares %d bits but carries only %d bytes", length, len(b)-headerSize)
+	}
+	bitfield := bitset.New(0)
+	if err := bitfield.UnmarshalBinary(b); err != nil {
+		return nil, err
+	}
+	return bitfield, nil
 }
 
 // handshake contains the same fields as a protobuf bitfield message, but with
@@ -114,8 +136,8 @@ func handshakeFromP2PMessage(m *p2p.Message) (*handshake, error) {
 	if err != nil {
 		return nil, fmt.Errorf("name: %s", err)
 	}
-	bitfield := bitset.New(0)
-	if err := bitfield.UnmarshalBinary(bitfieldMsg.BitfieldBytes); err != nil {
+	bitfield, err := unmarshalBitfield(bitfieldMsg.BitfieldBytes)
+	if err != nil {
 		return nil, err
 	}
 	remoteBitfields := make(RemoteBitfields)
